@@ -327,3 +327,31 @@ def count(spec):
     secs = list(iter_secs(spec))
     props = list(iter_props(spec))
     return len(secs), len(props)
+
+
+def fill_ids(spec, seed=0):
+    """Deterministically give every object of a spec an id (in place); returns the spec."""
+    import uuid
+    n = [0]
+
+    def nxt():
+        n[0] += 1
+        return str(uuid.UUID(int=(seed * 1000003 + n[0]) % (2 ** 128), version=4))
+
+    if spec.get("id") is None:
+        spec["id"] = nxt()
+    for s in iter_secs(spec):
+        if s.get("id") is None:
+            s["id"] = nxt()
+        for p in s.get("props", []):
+            if p.get("id") is None:
+                p["id"] = nxt()
+    return spec
+
+
+def is_text_of_number(built, loaded):
+    """built is a normalised numeric tv (['num', hex]) and loaded the tv of a str holding that number."""
+    try:
+        return built[0] == "num" and loaded[0] == "str" and float(loaded[1]) == float.fromhex(built[1])
+    except (ValueError, TypeError, IndexError):
+        return False
